@@ -1,3 +1,4 @@
+import Swat4.Lemmas.FactsExtra03
 import Swat4.Lemmas.Filter
 import Swat4.Lemmas.FilterChecked
 import Swat4.Lemmas.FilterSound
